@@ -99,6 +99,10 @@ def apply(mab, op, count=True):
         x = _fresh(op[3]) if len(op) > 3 and op[3] is not None else None
         if len(op) > 4 and op[4] and op[4].get("r"):
             r = np.asarray(r, dtype=op[4]["r"])              # rewards handed over as an array of the named dtype
+        if len(op) > 4 and op[4] and op[4].get("d"):
+            d = np.asarray(d, dtype=op[4]["d"])              # decisions likewise
+        if len(op) > 4 and op[4] and op[4].get("x0") is not None and x is not None:
+            x = np.empty((0, op[4]["x0"]))                   # a zero-row context matrix of the given width
         if x is None:
             return getattr(mab, kind)(d, r)
         return getattr(mab, kind)(d, r, x)
